@@ -69,7 +69,11 @@ claim("C03",
       "Static: the three name-walking functions accept exactly the same limits after threshold normalisation (sum of label+1 <= 254, label <= 63); the two text-side siblings reject leading and adjacent dots and account escapes in step; the octets the name printers emit unescaped are disjoint from the zone lexer's structural characters, '.' and '@' (tables extracted from the code); the packer writes nothing unless IsFqdn(s); Fqdn's two cases. Octet-for-octet round trips over all 256 values and positions are not decided (value-level).",
       STATIC_NOTE, "accumulator/threshold normalisation on SSA; character-class table extraction (AST); edge dominance")
 
+claim("C05",
+      "Static for all record types: String's transitive read set and parse's transitive write set (E2 effect summaries) cover every wire field (listed derived-length exceptions); mnemonic tables unique and fixed points of the parsers' upper-casing; TYPE/CLASS/\\# spellings agree between printer and parser; character-strings printed through the quoting helpers or between literal quotes; escape sets of the TXT and SVCB printers; bitmaps printed through Type.String; no case folding of names; TTL parser range = 32-bit field range. Seven genuine defects are listed as known findings (None/Reserved mnemonics; unquoted X25, GPOS x3, CAA.Tag). Octet-identical RDATA after a round trip and numeric formatting are not decided.",
+      STATIC_NOTE, "interprocedural read/write effect sets; table extraction and agreement; AST quoting idioms")
+
 _pending = "rules for this property are designed (DESIGN.md §4) but not implemented yet; not claimed until they run"
-for p in ["C02","C05"]:
+for p in ["C02"]:
     na(p, _pending)
 na("C19", "every clause is an equality between index arithmetic on a runtime string and its label sequence; no pairing/ownership/ordering/table structure to decide statically (DESIGN.md §8)")
